@@ -342,6 +342,23 @@ func (m *Machine) chanRecv(s *State, p Ptr, et types.Type) (Value, bool, bool) {
 
 func (m *Machine) execSelect(s *State, f *Frame, x *ssa.Select) []*State {
 	c := m.ctx
+	if m.preemptSelect && !x.Blocking && len(s.gs) > 1 && !s.gs[s.cur].daemon && m.preemptHere(f) {
+		// root option preempt_at_select: a preemption point right before a non-blocking select (context-bounded),
+		// so that another goroutine can act between two polls of a channel
+		g := s.gs[s.cur]
+		if !g.lockYield && s.preemptions < m.preemptBound {
+			g.lockYield = true
+			f.idx--
+			s.atPreempt = true
+			succ := m.schedule(s, true)
+			s.atPreempt = false
+			if succ == nil && s.status == "" {
+				return []*State{s}
+			}
+			return succ
+		}
+		g.lockYield = false
+	}
 	var ready []int
 	committed := -1
 	for i, st := range x.States {
